@@ -36,6 +36,11 @@ R13.4 the setting is effective at every level: ReplaceType is inheritable in mer
 		c.Func(funcKey(ip, md))
 		ruleReplacementKey(c, r, ip, md)
 	}
+	// the replacement object is the one found, and the variable built from it is listed in its scope (C14 R14.5)
+	subRules(c, "R13.3", "add-var", "a replaced parameter is rendered from the object AddVar found: ", func(sub *Ctx) {
+		sub.Rule("R14.5", 0, "")
+		ruleNameResolution(sub, r, "R14.5")
+	})
 	// ---- R13.2
 	cp := r.Pkg("config")
 	if fd := FuncDecl(cp, "Config.GetReplacement"); fd == nil {
